@@ -218,6 +218,10 @@ type Bounds struct {
 	MaxFanout int
 	// restriction applied to graphs with exactly MaxInst instances when RestrictTop is set (keeps the thorough tier
 	// inside its time budget): see enumerate.
+	// UnaryExtra > 0: additionally all graphs with exactly UnaryExtra instances of the one-input one-output kinds
+	// (one external input, one external output): the smallest graphs that can put TWO internally linked pairs on
+	// two different CPs.
+	UnaryExtra  int
 	RestrictTop bool // at MaxInst instances: at most one two-input and one two-output fragment
 	TopMaxOut   int  // at MaxInst instances: maximum number of external outputs (0 = MaxExtOut)
 	TopMaxIn    int  // at MaxInst instances: maximum number of external inputs (0 = MaxExtIn)
@@ -252,6 +256,30 @@ func enumerate(b Bounds) []*Graph {
 			}
 		}
 		recK(0)
+	}
+	if n := b.UnaryExtra; n > b.MaxInst {
+		var unary []int
+		for k, kd := range kinds {
+			if len(kd.ResIn) == 1 && len(kd.ResOut) == 1 {
+				unary = append(unary, k)
+			}
+		}
+		kseq := make([]int, n)
+		var extra []*Graph
+		var recU func(i int)
+		recU = func(i int) {
+			if i == n {
+				extra = append(extra, wire(kseq, 1, 1, b)...)
+				return
+			}
+			for _, k := range unary {
+				kseq[i] = k
+				recU(i + 1)
+			}
+		}
+		recU(0)
+		// explored first: a deadline cap on a loaded machine then cuts the tail of the 3-instance graphs, never this family
+		out = append(extra, out...)
 	}
 	return out
 }
